@@ -15,6 +15,7 @@ import (
 	"sort"
 	"strconv"
 	"strings"
+	"syscall"
 )
 
 // a stream: a generator of ops and the implementation-side evaluator of one op
@@ -88,7 +89,15 @@ func main() {
 // for the next one and restarts the worker on the rest.
 func runImpl() {
 	in := bufio.NewReaderSize(os.Stdin, 1<<20)
-	out := bufio.NewWriter(os.Stdout)
+	// keep the protocol channel private: the code under test logs to os.Stdout
+	fd, err := syscall.Dup(1)
+	if err != nil {
+		panic(err)
+	}
+	protoOut := os.NewFile(uintptr(fd), "proto-out")
+	syscall.Dup2(2, 1)
+	os.Stdout = os.Stderr
+	out := bufio.NewWriter(protoOut)
 	for {
 		line, err := in.ReadString('\n')
 		if len(line) > 0 {
